@@ -64,7 +64,7 @@ impl Scenario for C20S {
                            "thread": if i + 1 == k { 1 } else { 0 }, "big": false})
                 })
                 .collect();
-            return json!({"sim": sim, "streams": streams, "threads": 2});
+            return json!({"sim": sim, "streams": streams, "threads": 2, "prepared": r.chance(2, 3)});
         }
         json!({"sim": sim, "streams": streams, "threads": nthreads})
     }
@@ -139,30 +139,46 @@ mod imp {
         start_sim(p);
         let specs: Vec<Value> = p["streams"].as_array().cloned().unwrap_or_default().into_iter().take(32).collect();
         let nthreads = p["threads"].as_u64().unwrap_or(1).clamp(1, 8) as usize;
-        let mut plans: Vec<Vec<(u32, Value)>> = (0..nthreads).map(|_| vec![]).collect();
+        let prepared = p["prepared"].as_bool().unwrap_or(false);
+        let mut plans: Vec<Vec<(u32, Value, Option<(IpcSender<Vec<u8>>, ipc::IpcReceiver<Vec<u8>>)>)>> = (0..nthreads).map(|_| vec![]).collect();
         for (i, s) in specs.iter().enumerate() {
-            plans[s["thread"].as_u64().unwrap_or(0) as usize % nthreads].push((i as u32 + 1, s.clone()));
+            let route = i as u32 + 1;
+            // "prepared": the channel exists and its early messages are queued before any thread
+            // starts converting, so the converting threads do nothing but call to_stream
+            let ready = if prepared {
+                let (tx, rx) = ipc::channel::<Vec<u8>>().unwrap();
+                send_some(&tx, route, 0, s["pre"].as_u64().unwrap_or(0).min(4), 40, 0);
+                hist::log("drop.inv", route as i64, 0, 0, "");
+                hist::log("drop.ret", route as i64, 0, 0, "");
+                Some((tx, rx))
+            } else {
+                None
+            };
+            plans[s["thread"].as_u64().unwrap_or(0) as usize % nthreads].push((route, s.clone(), ready));
         }
         let any_pre = specs.iter().any(|s| s["pre"].as_u64().unwrap_or(0) > 0);
         for (t, plan) in plans.into_iter().enumerate() {
             sim::spawn(&format!("converter{}", t), None, move || {
-                for (route, s) in plan {
-                    let (tx, rx) = ipc::channel::<Vec<u8>>().unwrap();
-                    let pre = s["pre"].as_u64().unwrap_or(0).min(60);
+                for (route, s, ready) in plan {
+                    let was_ready = ready.is_some();
+                    let (tx, rx) = ready.unwrap_or_else(|| ipc::channel::<Vec<u8>>().unwrap());
+                    let pre = if was_ready { 0 } else { s["pre"].as_u64().unwrap_or(0).min(60) };
                     let post = s["post"].as_u64().unwrap_or(0).min(20);
                     let len = if s["big"].as_bool().unwrap_or(false) { 9000 } else { 40 };
                     let gap = s["gap_us"].as_u64().unwrap_or(0).min(100_000);
                     let hold = s["hold"].as_bool().unwrap_or(false);
                     // messages queued before the conversion (a helper thread: a large backlog may block)
-                    let tx2 = tx.clone();
-                    let h = sim::spawn(&format!("presender{}", route), None, move || {
-                        send_some(&tx2, route, 0, pre, len, 0);
-                        hist::log("drop.inv", route as i64, 0, 0, "");
-                        drop(tx2);
-                        hist::log("drop.ret", route as i64, 0, 0, "");
-                    });
-                    if pre <= 4 && len < 1000 {
-                        let _ = h.join();
+                    if !was_ready {
+                        let tx2 = tx.clone();
+                        let h = sim::spawn(&format!("presender{}", route), None, move || {
+                            send_some(&tx2, route, 0, pre, len, 0);
+                            hist::log("drop.inv", route as i64, 0, 0, "");
+                            drop(tx2);
+                            hist::log("drop.ret", route as i64, 0, 0, "");
+                        });
+                        if pre <= 4 && len < 1000 {
+                            let _ = h.join();
+                        }
                     }
                     hist::log("to_stream.inv", route as i64, 0, 0, "");
                     let mut st = rx.to_stream();
